@@ -8,8 +8,11 @@
    re-iteration hiding the subgraph, or the forced default after exhaustion), whoever requests the node and however the requests
    interleave; and the processed mark in the storage is exactly that fact. (The seeded change C04-1 -- an await between the test and
    the mark -- is precisely what this theorem's proof would not survive in the model; on the implementation it is caught by the
-   oracle and the correspondence.) Not proved in general: that every body invocation belongs to such an execution and stays within
-   its retry attempts (C12 covers one execution). The kind-E counts are FALSE only on known findings D9, D12, D17. *)
+   oracle and the correspondence.) Also kind G: every body invocation belongs to an execution that has begun -- in the history it is
+   preceded by the marking of its node (C04_every_body_invocation_belongs_to_a_begun_execution) -- and the retry loop of an
+   execution never goes beyond the configured attempts (C12_attempt_numbers_stay_within_the_configured_attempts); kind F: on plain
+   programs at most one execution per node and at most `attempts` body invocations in total
+   (C12_on_plain_programs_at_most_attempts_invocations). The kind-E counts are FALSE only on known findings D9, D12, D17. *)
 From MLPE Require Import Engine.Run Spec.Dataflow Proofs.ExecLemmas Explore.StateEq Explore.Erase Explore.Explorer Explore.Safe
      Catalogue.Programs Catalogue.Certified Proofs.CertLemmas Proofs.ProcessedInv.
 
@@ -36,6 +39,14 @@ Proof.
   exact (two_executions_are_separated n l1 l2 l3 H).
 Qed.
 Print Assumptions C04_two_executions_are_separated_by_an_invalidation.
+
+(* kind G: in the history (newest first), a body invocation of node i is preceded by the marking of a node with that index *)
+From MLPE Require Import Proofs.ProcAll.
+Theorem C04_every_body_invocation_belongs_to_a_begun_execution :
+  forall P st, reachable P st ->
+    forall a b i k kw, st_trace st = a ++ OStart i k kw :: b -> exists n, real_index n = i /\ In (OProcessed n) b.
+Proof. exact every_body_invocation_belongs_to_a_begun_execution. Qed.
+Print Assumptions C04_every_body_invocation_belongs_to_a_begun_execution.
 
 (* a node shared by the main DAG, a switch branch and the output is executed exactly as often as the reference does: once *)
 Example C04_shared_node_once :
